@@ -23,7 +23,9 @@ thread_local! {
 
 pub fn check_triple<V: Fv>(class: &str, msg: &[u8], sigb: &[u8], pkb: &[u8], rep: &mut Report) -> Option<(bool, VerifyTrace)> {
     rep.evaluations += 1;
-    let prev = PREVIOUS.with(|p| p.borrow_mut().replace((V::NAME.to_string(), if msg.len() <= 4096 { msg.to_vec() } else { vec![] }, sigb.to_vec(), pkb.to_vec())));
+    // (try_with: this function is also called while a thread is being torn down, when the
+    // harness' own thread-local may already be gone)
+    let prev = PREVIOUS.try_with(|p| p.borrow_mut().replace((V::NAME.to_string(), if msg.len() <= 4096 { msg.to_vec() } else { vec![] }, sigb.to_vec(), pkb.to_vec()))).unwrap_or(None);
     let replay = || {
         let mut j = json!({"variant": V::NAME, "class": class, "msg": hex(msg), "sig": hex(sigb), "pk": hex(pkb)});
         if let Some((v, m, s, p)) = &prev {
@@ -819,6 +821,58 @@ pub fn boundary(ctx: &Ctx, rep: &mut Report) {
     rep.require("overflow_two-step-block", 2);
     interleaved(ctx, rep);
     related_variants(ctx, rep);
+    // verify while a thread is being torn down (see C13): crafted triples at the bound
+    {
+        let mut rng = rng_for(ctx.seed, "c02-teardown");
+        for ti in 0..ctx.sz(24, 200) {
+            let (n, bound, l, hdr) = if ti % 2 == 0 { (512usize, F512::BOUND, 625usize, 0x59u8) } else { (1024, F1024::BOUND, 1239, 0x5a) };
+            let d = [0i64, 1, -1][ti % 3];
+            let c = match craft_exact(n, bound + d, (ti % 4) as u32, &mut rng) {
+                Some(c) => c,
+                None => continue,
+            };
+            let body = match spec::compress(&c.s2, l) {
+                Some(b) => b,
+                None => continue,
+            };
+            let mut sb = vec![hdr];
+            sb.extend_from_slice(&c.salt);
+            sb.extend_from_slice(&body);
+            let pkb = spec::pk_encode(&c.h);
+            let (msg, sb2, pkb2) = (c.msg.clone(), sb.clone(), pkb.clone());
+            let warm = ti % 3 != 0;
+            let (wm, ws, wp) = (c.msg.clone(), sb.clone(), pkb.clone());
+            let res = crate::util::run_at_thread_exit(
+                move || {
+                    if warm {
+                        let mut scratch = Report::new();
+                        if n == 512 {
+                            check_triple::<F512>("warm-up", &wm, &ws, &wp, &mut scratch);
+                        } else {
+                            check_triple::<F1024>("warm-up", &wm, &ws, &wp, &mut scratch);
+                        }
+                    }
+                },
+                move || {
+                    let mut rep = Report::new();
+                    if n == 512 {
+                        check_triple::<F512>("thread-exit", &msg, &sb2, &pkb2, &mut rep);
+                    } else {
+                        check_triple::<F1024>("thread-exit", &msg, &sb2, &pkb2, &mut rep);
+                    }
+                    rep.violations.first().map(|v| format!("{}: {}", v.signature, v.detail))
+                },
+            );
+            rep.evaluations += 1;
+            match res {
+                Ok(None) => rep.count("verifications_during_thread_exit", 1),
+                Ok(Some(what)) => rep.violation("verify:wrong-during-thread-exit", what, json!({"variant": if n == 512 { "falcon512" } else { "falcon1024" }, "class": "thread-exit", "msg": hex(&c.msg), "sig": hex(&sb), "pk": hex(&pkb)})),
+                Err(e) if e.contains("did not run") => rep.inconclusive(e),
+                Err(e) => rep.violation("panic:verify-during-thread-exit", e, json!({"variant": if n == 512 { "falcon512" } else { "falcon1024" }, "class": "thread-exit", "msg": hex(&c.msg), "sig": hex(&sb), "pk": hex(&pkb)})),
+            }
+        }
+        rep.require("verifications_during_thread_exit", 10);
+    }
     boundary_v::<F512>(ctx, rep);
     boundary_v::<F1024>(ctx, rep);
     lenient_v::<F512>(ctx, rep);
